@@ -176,7 +176,7 @@ class Impl:
             import mesa.discrete_space as ds
 
             h = self.o.impl.h
-            self.o.impl.space = ds.VoronoiGrid([list(p) for p in h.points], capacity=h.cap, random=self.o.impl.rng,
+            self.o.impl.space = ds.VoronoiGrid([[x / h.scale for x in p] for p in h.points], capacity=h.cap, random=self.o.impl.rng,
                                                capacity_function=functools.partial(_const_cap, h.cap))
             self.o.impl.name = {id(c): C.fmt_name(k) for k, c in self.o.impl.space._cells.items()}
         self.c = None
